@@ -35,7 +35,10 @@ class TocRenderer:
             "<b>%d</b>" % 9999, pdfstyles.text_style(mode="toc_article",
                                                      text_align="right")
         )
-        width, _ = paragraph.wrap(0, pdfstyles.PRINT_HEIGHT)
+        # the natural width of the page-number column: wrap() just hands the offered width back
+        # (0 made reportlab refuse the whole table, and with it every book with a contents page)
+        paragraph.wrap(pdfstyles.PRINT_WIDTH, pdfstyles.PRINT_HEIGHT)
+        width = paragraph.minWidth()
         # subtracting 30pt below is *probably* necessary b/c
         # of the table margins
         return [pdfstyles.PRINT_WIDTH - width - 30, width]
